@@ -60,7 +60,7 @@ func (p *parser) parseSelector() (s Selector, err error) {
 }
 
 func (p *parser) parseLabelMatcher() (m LabelMatcher, err error) {
-	m.Label, err = p.parseIdent()
+	m.Label, err = p.parseLabelName()
 	if err != nil {
 		return m, err
 	}
